@@ -104,7 +104,7 @@ class PipeSpec(SeqSpec):
         return {"buf": buf, "threads": threads}, ops
 
     def gen(self, rng, tier, scale):
-        n = int((300 if tier == "quick" else 4000) * scale)
+        n = int((250 if tier == "quick" else 3500) * scale)
         cases = []
         for i in range(n):
             cfg, ops = self.gen_targeted(rng) if i % 5 == 0 else self.gen_one(rng)
